@@ -22,6 +22,27 @@ with exact target sizes 2-400 bytes (ASCII and multi-byte UTF-8 padding, so byte
 chosen at the boundaries: byte limit in {window sum - 1, window sum, window sum + 1, max size (+0, +1, +2),
 total (+0, +1), random, 1 MiB}, count limit in {1, 2, 3, n-1, n, n+1, G-1, G, G+1, random, 1024}.
 Phase 'api' = specs produced by the client's own Batch.create_job_group / create_job on the same instance.
+
+The order clause ("exactly the original specifications in order") is only exercised by lists on which a
+re-ordering is not the identity.  The two phases above produce job-group specs that are flat (every parent is the
+root, ids ascending), so any step that orders / groups / de-duplicates specs by one of their fields is invisible
+there.  Two more phases generate the lists that clause needs:
+Phase 'tree' = NESTED job groups built with the client's own API (Batch.create_job_group, JobGroup.create_job_group,
+JobGroup.create_job, Batch.get_job_group / Job.submitted_job for already submitted parents) in 9 creation orders
+(uniform random parent, interleaved a/a1/b/b1, depth-first, children of the top-level groups in descending order,
+two-level random, comb, and the benign breadth-first / chain / flat), as a new batch (in_update_parent_id) and as
+an update of an existing batch (absolute_parent_id of submitted groups in arbitrary id order, mixed with in-update
+parents), with jobs created in arbitrary job groups and with several in-update / absolute parents, job groups and
+jobs created interleaved; ~1 % of the cases have 1025-2300 job groups and use the production limits (1 MiB, 1024).
+Besides the oracle above (against the client's own spec lists) the flattened output is decoded and compared with
+the monitor's OWN creation log: the k-th emitted job-group spec is job group k with the parent it was created
+under, the k-th emitted job spec is job k with the job group / parents it was created with ('creation-order/*').
+Phase 'fields' = arbitrary structured spec lists (the quantifier is "all lists of specs"): each field the client
+writes (job_group_id, attributes, callback, cancel_after_n_failures, in_update_parent_id | absolute_parent_id;
+always_run, n_max_attempts, always_copy_output, job_id, absolute_parent_ids, in_update_parent_ids, process,
+in_update_job_group_id | absolute_job_group_id, env, timeout, attributes, mount_tokens, regions) runs along the list
+ascending, descending, random, ascending with one transposition, constant, sparse or absent; 15 % of the lists
+contain an exact duplicate of a structured spec.  Observed per field whether its values had a descent.
 """
 import copy
 
@@ -32,7 +53,13 @@ RULE = (
     'split into job-group specs and job specs at a random point; byte limit drawn from sums of random windows -1/0/+1, '
     'largest spec +0/+1/+2, total +0/+1, random, 1 MiB; count limit from 1,2,3,n-1,n,n+1,G-1,G,G+1,random,1024. '
     'phase api: specs built by Batch.create_job_group/create_job (real client code), same limit choice. '
-    'Distinct by (number of job-group specs, per-bunch (length, why the bunch was closed: bytes/count/end), refusal); '
+    'phase tree: nested job-group trees built by Batch/JobGroup.create_job_group + create_job in 9 creation orders x '
+    '{new batch, update of an existing batch with submitted parents}, jobs in arbitrary groups with in-update/absolute '
+    'parents, ~1 % with 1025-2300 groups at the production limits; additionally judged against the monitor\'s own creation log. '
+    'phase fields: structured spec lists in which each of 20 client-written fields runs ascending/descending/random/'
+    'one-transposition/constant/sparse/absent along the list, 15 % with an exact duplicate spec; same limit choice. '
+    'Distinct by (number of job-group specs, per-bunch (length, why the bunch was closed: bytes/count/end), refusal; '
+    'in tree/fields also the disorder class: update form, parent-id descents, job-group-reference descents, which side has a disordered field); '
     'non-trivial when at least two bunches were produced or the call was refused.'
 )
 ASSUMPTIONS = [
@@ -59,6 +86,27 @@ def FLOORS(tier):
         'refused_spec_eq_limit': 100 * k,
         'multibyte_specs': 10_000 * k,
         'api_cases': 300 * k,
+        # order clause: lists on which a re-ordering by a spec field is not the identity (phases tree, fields)
+        'tree_cases': 750 * k,
+        'tree_nested_cases': 600 * k,
+        'tree_update_form_cases': 280 * k,
+        'tree_cases_group_parent_ids_not_monotone': 350 * k,
+        'tree_cases_group_parent_ids_not_monotone_new_batch': 180 * k,
+        'tree_cases_group_parent_ids_not_monotone_update_form': 190 * k,
+        'tree_cases_absolute_and_in_update_parents_mixed': 230 * k,
+        'tree_cases_job_group_refs_not_monotone': 350 * k,
+        'tree_cases_job_with_several_parents': 300 * k,
+        'tree_not_monotone_groups_split_over_bunches': 270 * k,
+        'tree_production_limit_cases': 6 * k,
+        'creation_order_checked_groups': 17_000 * k,
+        'creation_order_checked_jobs': 6_500 * k,
+        'tree_shapes': 18,            # seen-set: 9 creation orders x {new batch, update}
+        'fields_cases': 2_000 * k,
+        'fields_cases_group_field_disordered': 1_100 * k,
+        'fields_cases_job_field_disordered': 850 * k,
+        'fields_cases_with_duplicated_spec': 280 * k,
+        'fields_disordered_split_over_bunches': 1_400 * k,
+        'fields_disordered': 20,      # seen-set: every generated field had a descent along some list
     }
 
 
@@ -133,13 +181,17 @@ def run(ctx):
         def __getattr__(self, name):  # any network attempt is a harness error
             raise RuntimeError(f'network use attempted: {name}')
 
-    def new_batch():
+    def new_batch(batch_id=None):
         try:
-            return Batch(DummyClient(), None)
+            return Batch(DummyClient(), batch_id)
         except Exception:
+            if batch_id is not None:
+                raise
             return object.__new__(Batch)
 
-    def judge(groups, jobs, maxb, maxn, phase_note):
+    def judge(groups, jobs, maxb, maxn, phase_note, extra_key=None):
+        """Run the real _create_bunches and apply the oracle.  Returns the bunches, or None when the call was
+        refused / raised.  `extra_key` refines the distinctness abstraction (phase-specific structure class)."""
         exp = [dumps(s) for s in groups] + [dumps(s) for s in jobs]
         G = len(groups)
         sizes = [len(b) for b in exp]
@@ -154,15 +206,15 @@ def run(ctx):
                 ctx.count('refused_oversized')
                 if any(sizes[i] == maxb for i in oversized):
                     ctx.count('refused_spec_eq_limit')
-                ctx.case(sample=wit, key=('refused', G, len(sizes), len(oversized)), nontrivial=True)
-                return
+                ctx.case(sample=wit, key=('refused', G, len(sizes), len(oversized), extra_key), nontrivial=True)
+                return None
             ctx.violation('spurious-refusal', f'AssertionError although every spec is smaller than the byte limit: {str(e)[:120]}', wit)
             ctx.case(sample=wit, key=('spurious', G), nontrivial=True)
-            return
+            return None
         except Exception as e:
             ctx.violation('raises', f'_create_bunches raised {e!r}', wit)
             ctx.case(sample=wit, key=('raises', type(e).__name__), nontrivial=True)
-            return
+            return None
         if groups != g0 or jobs != j0:
             ctx.count('input_lists_mutated')
         got = [(s.spec_bytes, s.typ) for bunch in bunches for s in bunch]
@@ -178,7 +230,17 @@ def run(ctx):
                 key = 'concat/reordered'
             else:
                 key = 'concat/bytes-altered'
-            ctx.violation(key, f'flattened bunches differ from the serialized specs ({len(got_bytes)} vs {len(exp)} specs)', wit)
+            first = next((i for i, (x, y) in enumerate(zip(got_bytes, exp)) if x != y), min(len(got_bytes), len(exp)))
+            wit['first_difference_at'] = first
+            wit['first_difference_in'] = 'job-group specs' if first < G else 'job specs'
+            if key == 'concat/reordered':
+                # position in the input of every emitted spec (equal specs matched left to right)
+                where = {}
+                for i, x in enumerate(exp):
+                    where.setdefault(x, []).append(i)
+                wit['emitted_input_positions'] = [where[x].pop(0) for x in got_bytes][:200]
+            ctx.violation(key, f'flattened bunches differ from the serialized specs ({len(got_bytes)} vs {len(exp)} specs), '
+                               f'first difference at position {first} ({wit["first_difference_in"]})', wit)
         else:
             for i, (_, typ) in enumerate(got):
                 want = SpecType.JOB_GROUP if i < G else SpecType.JOB
@@ -227,7 +289,9 @@ def run(ctx):
                 shape.append((len(bunch), 'end'))
         if any(len(x.decode('utf-8')) != len(x) for x in exp):
             ctx.count('multibyte_specs')  # cases in which bytes != characters
-        ctx.case(sample=wit, key=(G, tuple(shape)), nontrivial=len(bunches) >= 2)
+        ctx.case(sample=wit, key=(G, tuple(shape)) if extra_key is None else (G, tuple(shape), extra_key),
+                 nontrivial=len(bunches) >= 2)
+        return bunches
 
     # ---- phase sized -------------------------------------------------------------------------
     N = ctx.pick(40_000, 100_000)
@@ -283,6 +347,330 @@ def run(ctx):
         judge(groups, jobs, maxb, maxn, 'api')
 
 
+    # ---- phase tree: NESTED job groups made by the client's own API, in every creation order -----------------
+    # The order clause needs specs whose own fields are not monotone along the list: the parent ids of a branching
+    # job-group tree created depth-first / interleaved, the job-group references and parent lists of jobs created
+    # in arbitrary groups, absolute (already submitted) and in-update parents mixed in an update of an existing
+    # batch.  Everything is built through Batch.create_job_group / JobGroup.create_job_group / create_job /
+    # Batch.get_job_group / Job.submitted_job (real client code); the monitor keeps its own creation log.
+    loads = getattr(aioclient.orjson, 'loads', None) or __import__('json').loads
+    N3 = ctx.pick(1_500, 4_000)
+    for i, rng in ctx.cases(N3, 'tree'):
+        update_form = rng.random() < 0.4
+        b = new_batch(rng.randint(1, 10**6) if update_form else None)
+        big = rng.random() < 0.012  # enough specs to cross the production limits (1024 specs / 1 MiB)
+        if big:
+            n_g = rng.choice([1025, 1100, 1500, 2049, rng.randint(1025, 2300)])
+            n_j = rng.choice([0, 5, 1024, rng.randint(0, 1200)])
+        else:
+            n_g = rng.choice([2, 3, 3, 4, 5, 6, 8, 12, 20, 40, rng.randint(2, 40)])
+            n_j = rng.choice([0, 0, 1, 2, 3, 5, 8, 13, rng.randint(0, 40)])
+        shape = rng.choice(['uniform', 'uniform', 'interleaved', 'interleaved', 'dfs', 'dfs', 'reverse-children',
+                            'two-level', 'bfs', 'chain', 'flat', 'comb'])
+        submitted_groups = []
+        submitted_jobs = []
+        if update_form:  # handles of job groups / jobs that already exist server-side, ids in no particular order
+            submitted_groups = [b.get_job_group(rng.randint(1, 60)) for _ in range(rng.choice([0, 1, 2, 3, 6]))]
+            submitted_jobs = [aioclient.Job.submitted_job(b, rng.randint(1, 500)) for _ in range(rng.choice([0, 1, 3, 6]))]
+        handles = []   # unsubmitted JobGroup handles in creation order
+        glog = []      # monitor's own creation log: (parent kind, parent id) per created job group
+        jlog = []      # ((job-group kind, job-group id), in-update parent ids, absolute parent ids) per created job
+        made = []
+        stack = []
+        n_top = max(1, rng.randint(1, max(1, n_g // 2)))
+
+        def pick_parent(k):
+            """None = the batch itself (root job group), else a JobGroup handle."""
+            if submitted_groups and rng.random() < 0.3:
+                return rng.choice(submitted_groups)
+            if not handles or shape == 'flat':
+                return None
+            if shape == 'chain':
+                return handles[-1]
+            if shape == 'uniform':
+                return rng.choice([None] + handles)
+            if shape == 'interleaved':  # a, a's child, next top-level group, its child, ...
+                r = rng.random()
+                return handles[-1] if (k % 2 == 1 and r < 0.8) else (None if r < 0.7 else rng.choice(handles))
+            if shape == 'dfs':
+                while stack and rng.random() < 0.45:
+                    stack.pop()
+                return stack[-1] if stack else None
+            if shape == 'reverse-children':  # n_top top-level groups, then children of them in descending order
+                if k < n_top:
+                    return None
+                return handles[max(0, min(len(handles), n_top) - 1 - ((k - n_top) % n_top))]
+            if shape == 'two-level':
+                if k < n_top:
+                    return None
+                return rng.choice(handles[:n_top])
+            if shape == 'bfs':  # parents non-decreasing: already sorted (the benign neighbour)
+                return handles[min(len(handles) - 1, k // 3)] if k >= 3 else None
+            if shape == 'comb':  # a spine; the leaf of a spine node is created after the next spine node
+                return handles[-2] if (k % 2 == 0 and len(handles) >= 2) else handles[-1]
+            raise AssertionError(shape)
+
+        def make_group(k):
+            kw = {}
+            if rng.random() < (0.1 if big else 0.6):
+                kw['attributes'] = {'name': rng.choice(PADS) * rng.randint(0, 40)}
+            if rng.random() < 0.3:
+                kw['cancel_after_n_failures'] = rng.choice([1, 5, 100])
+            if rng.random() < 0.1:
+                kw['callback'] = 'https://example.invalid/cb/' + 'c' * rng.randint(0, 20)
+            parent = pick_parent(k)
+            jg = b.create_job_group(**kw) if parent is None else parent.create_job_group(**kw)
+            if parent is None:
+                glog.append(('abs' if update_form else 'upd', 0))
+            else:
+                glog.append(('abs' if parent.is_submitted else 'upd', parent._job_group_id))
+            handles.append(jg)
+            if shape == 'dfs':
+                stack.append(jg)
+
+        def make_job():
+            kw = {}
+            if rng.random() < (0.1 if big else 0.5):
+                kw['attributes'] = {'name': rng.choice(PADS) * rng.randint(0, 60)}
+            if rng.random() < 0.2:
+                kw['resources'] = {'cpu': rng.choice(['1', '250m', '0.5']), 'memory': rng.choice(['standard', '1Gi'])}
+            ps = []
+            if made and rng.random() < 0.5:
+                ps += rng.sample(made, min(len(made), rng.choice([1, 1, 2, 3])))
+            if submitted_jobs and rng.random() < 0.4:
+                ps += rng.sample(submitted_jobs, min(len(submitted_jobs), rng.choice([1, 2])))
+            if ps:
+                rng.shuffle(ps)
+                kw['parents'] = ps
+            owners = [None] + handles + submitted_groups
+            owner = rng.choice(owners) if rng.random() < 0.85 else None
+            j = (b if owner is None else owner).create_job('ubuntu:22.04', ['echo', 'x' * rng.randint(0, 30)], **kw)
+            if owner is None:
+                og = ('abs' if update_form else 'upd', 0)
+            else:
+                og = ('abs' if owner.is_submitted else 'upd', owner._job_group_id)
+            jlog.append((og, [p._job_id for p in ps if not p.is_submitted], [p._job_id for p in ps if p.is_submitted]))
+            made.append(j)
+
+        # job groups and jobs are created interleaved (the client keeps the two lists apart)
+        todo = ['g'] * n_g + ['j'] * n_j
+        if rng.random() < 0.7:
+            rng.shuffle(todo)
+        kg = 0
+        for t in todo:
+            if t == 'g':
+                make_group(kg)
+                kg += 1
+            else:
+                make_job()
+        groups, jobs = b._job_group_specs, b._job_specs
+        sizes = [len(dumps(s)) for s in groups] + [len(dumps(s)) for s in jobs]
+        if big:
+            maxb, maxn = 1024 * 1024, 1024
+            ctx.count('tree_production_limit_cases')
+        else:
+            maxb, maxn = choose_limits(rng, sizes, len(groups))
+        # structure class of the workload (measured on the monitor's own creation log, not on the client's specs)
+        pids = [pid for _, pid in glog]
+        kinds = {k for k, _ in glog}
+        descents = sum(1 for x, y in zip(pids, pids[1:]) if x > y)
+        jrefs = [og[1] for og, _, _ in jlog]
+        jdesc = sum(1 for x, y in zip(jrefs, jrefs[1:]) if x > y)
+        ctx.count('tree_cases')
+        ctx.count('tree_specs', len(sizes))
+        if update_form:
+            ctx.count('tree_update_form_cases')
+        if any(k == 'upd' and pid != 0 for k, pid in glog):
+            ctx.count('tree_nested_cases')
+        if descents:
+            ctx.count('tree_cases_group_parent_ids_not_monotone')
+            ctx.count('tree_cases_group_parent_ids_not_monotone_' + ('update_form' if update_form else 'new_batch'))
+            ctx.count('tree_group_parent_id_descents', descents)
+        if len(kinds) == 2:
+            ctx.count('tree_cases_absolute_and_in_update_parents_mixed')
+        if jdesc:
+            ctx.count('tree_cases_job_group_refs_not_monotone')
+        if any(len(up) + len(ab) >= 2 for _, up, ab in jlog):
+            ctx.count('tree_cases_job_with_several_parents')
+        ctx.seen('tree_shapes', shape + ('/update' if update_form else '/new'))
+        bunches = judge(groups, jobs, maxb, maxn, 'tree',
+                        extra_key=('tree', update_form, min(descents, 3), min(jdesc, 3), len(kinds)))
+        if bunches is None:
+            continue
+        if descents and sum(1 for x in bunches if any(s.typ == SpecType.JOB_GROUP for s in x)) >= 2:
+            ctx.count('tree_not_monotone_groups_split_over_bunches')
+        # "the original specifications in order", stated against the monitor's own creation log: the k-th emitted
+        # job-group spec is the k-th job group the monitor created (the client numbers them 1, 2, ... as they are
+        # made) with the parent the monitor gave it; same for jobs.  Independent of Batch._job_group_specs/_job_specs.
+        flat = [s for x in bunches for s in x]
+        try:
+            out_g = [loads(s.spec_bytes) for s in flat if s.typ == SpecType.JOB_GROUP]
+            out_j = [loads(s.spec_bytes) for s in flat if s.typ == SpecType.JOB]
+        except Exception:  # not JSON any more: the concat oracle has already reported bytes-altered
+            ctx.count('tree_output_not_json')
+            continue
+
+        def gparent_of(g):
+            return ('abs', g['absolute_parent_id']) if 'absolute_parent_id' in g else ('upd', g.get('in_update_parent_id'))
+
+        wit = {'phase': 'tree', 'shape': shape, 'update_form': update_form, 'creation_log_groups': glog[:80],
+               'emitted_group_ids': [g.get('job_group_id') for g in out_g][:80],
+               'emitted_group_parents': [gparent_of(g) for g in out_g][:80],
+               'max_bunch_bytesize': maxb, 'max_bunch_size': maxn, 'bunch_lengths': [len(x) for x in bunches][:80]}
+        if [g.get('job_group_id') for g in out_g] != list(range(1, len(glog) + 1)):
+            ctx.violation('creation-order/job-groups',
+                          'emitted job-group specs are not the created job groups 1..G in creation order', wit)
+        else:
+            for k, (g, want) in enumerate(zip(out_g, glog)):
+                if gparent_of(g) != want:
+                    ctx.violation('creation-order/job-group-parent',
+                                  f'job group {k + 1} was created under {want} but is emitted with parent {gparent_of(g)}', wit)
+                    break
+            ctx.count('creation_order_checked_groups', len(out_g))
+        if [j.get('job_id') for j in out_j] != list(range(1, len(jlog) + 1)):
+            wit['emitted_job_ids'] = [j.get('job_id') for j in out_j][:80]
+            ctx.violation('creation-order/jobs', 'emitted job specs are not the created jobs 1..J in creation order', wit)
+        else:
+            for k, (j, (og, up, ab)) in enumerate(zip(out_j, jlog)):
+                got = ('abs', j['absolute_job_group_id']) if 'absolute_job_group_id' in j else ('upd', j.get('in_update_job_group_id'))
+                if got != og or j.get('in_update_parent_ids') != up or j.get('absolute_parent_ids') != ab:
+                    wit['job'] = {'index': k + 1, 'created': (og, up, ab),
+                                  'emitted': (got, j.get('in_update_parent_ids'), j.get('absolute_parent_ids'))}
+                    ctx.violation('creation-order/job-references',
+                                  f'job {k + 1} is emitted with other job-group / parent references than it was created with', wit)
+                    break
+            ctx.count('creation_order_checked_jobs', len(out_j))
+
+    # ---- phase fields: arbitrary spec lists whose FIELD VALUES are not monotone along the list ---------------
+    # "all lists of specs": every field the client writes into a job-group spec and the always-present plus some
+    # optional fields of a job spec appear, per list, ascending, descending, random, constant, partly absent or
+    # absent.  A step that orders, groups or de-duplicates specs by a field is the identity on the other phases'
+    # lists for most fields; here it is not.
+    N4 = ctx.pick(4_000, 10_000)
+    for i, rng in ctx.cases(N4, 'fields'):
+        n = rng.choice([2, 3, 3, 4, 5, 6, 8, 10, 13, 20, 30, rng.randint(2, 40)])
+        G = rng.choice([0, n, rng.randint(0, n), rng.randint(1, n), max(0, n - 1), min(n, 2)])
+        J = n - G
+
+        def column(m, kind):
+            """m values of one field along the list; None where the field is absent from the spec."""
+            mode = rng.choice(['asc', 'desc', 'random', 'random', 'const', 'absent', 'sparse', 'asc-one-swap'])
+            if mode == 'absent' or m == 0:
+                return [None] * m
+            if kind == 'int':
+                hi = rng.choice([3, m, m + 3, 1000])
+                vals = [rng.randint(0, hi) for _ in range(m)]
+            elif kind == 'id':
+                vals = list(range(1, m + 1)) if rng.random() < 0.5 else [rng.randint(0, m + 2) for _ in range(m)]
+                if mode in ('random', 'sparse'):
+                    rng.shuffle(vals)
+            elif kind == 'bool':
+                vals = [rng.random() < 0.5 for _ in range(m)]
+            elif kind == 'ids':
+                vals = [sorted(rng.sample(range(1, m + 6), rng.choice([0, 0, 1, 1, 2, 3]))) for _ in range(m)]
+                if rng.random() < 0.5:
+                    for v in vals:
+                        rng.shuffle(v)
+            elif kind == 'str':
+                vals = [rng.choice(PADS + ['a', 'b', 'Z']) * rng.randint(0, 12) + rng.choice(['', 'q', '0']) for _ in range(m)]
+            else:
+                raise AssertionError(kind)
+            if mode in ('asc', 'asc-one-swap'):
+                vals.sort()
+                if mode == 'asc-one-swap' and m >= 2:
+                    a = rng.randrange(m - 1)
+                    c = rng.randrange(a + 1, m)
+                    vals[a], vals[c] = vals[c], vals[a]
+            elif mode == 'desc':
+                vals.sort(reverse=True)
+            elif mode == 'const':
+                vals = [vals[0]] * m
+            elif mode == 'sparse':
+                vals = [v if rng.random() < 0.5 else None for v in vals]
+            return vals
+
+        gcols = {
+            'job_group_id': column(G, 'id'),
+            'attributes': column(G, 'str'),
+            'callback': column(G, 'str'),
+            'cancel_after_n_failures': column(G, 'int'),
+        }
+        gparent = column(G, 'id')
+        p_abs = rng.choice([0.0, 0.0, 0.5, 1.0])
+        gparent_abs = [rng.random() < p_abs for _ in range(G)]
+        groups = []
+        for k in range(G):
+            spec = {}
+            for f in ('job_group_id', 'attributes', 'callback', 'cancel_after_n_failures'):  # the client's key order
+                v = gcols[f][k]
+                if v is not None:
+                    spec[f] = {'name': v} if f == 'attributes' else v
+            if gparent[k] is not None:
+                spec['absolute_parent_id' if gparent_abs[k] else 'in_update_parent_id'] = gparent[k]
+            groups.append(spec)
+        gcols['absolute_parent_id'] = [v if a else None for v, a in zip(gparent, gparent_abs)]
+        gcols['in_update_parent_id'] = [None if a else v for v, a in zip(gparent, gparent_abs)]
+        jcols = {
+            'always_run': column(J, 'bool'),
+            'n_max_attempts': column(J, 'int'),
+            'always_copy_output': column(J, 'bool'),
+            'job_id': column(J, 'id'),
+            'absolute_parent_ids': column(J, 'ids'),
+            'in_update_parent_ids': column(J, 'ids'),
+            'process': column(J, 'str'),
+        }
+        jref = column(J, 'id')
+        p_abs = rng.choice([0.0, 0.0, 0.5, 1.0])
+        jref_abs = [rng.random() < p_abs for _ in range(J)]
+        jopt = {'env': column(J, 'str'), 'timeout': column(J, 'int'), 'attributes': column(J, 'str'),
+                'mount_tokens': column(J, 'bool'), 'regions': column(J, 'str')}
+        jobs = []
+        for k in range(J):
+            spec = {}
+            for f in ('always_run', 'n_max_attempts', 'always_copy_output', 'job_id', 'absolute_parent_ids',
+                      'in_update_parent_ids', 'process'):
+                v = jcols[f][k]
+                if v is not None:
+                    spec[f] = {'type': 'docker', 'image': 'ubuntu', 'command': ['echo', v]} if f == 'process' else v
+            if jref[k] is not None:
+                spec['absolute_job_group_id' if jref_abs[k] else 'in_update_job_group_id'] = jref[k]
+            for f in ('env', 'timeout', 'attributes', 'mount_tokens', 'regions'):
+                v = jopt[f][k]
+                if v is not None:
+                    spec[f] = ({'name': v} if f == 'attributes' else [v] if f == 'regions'
+                               else [{'name': 'A', 'value': v}] if f == 'env' else v)
+            jobs.append(spec)
+        jcols.update(jopt)
+        jcols['absolute_job_group_id'] = [v if a else None for v, a in zip(jref, jref_abs)]
+        jcols['in_update_job_group_id'] = [None if a else v for v, a in zip(jref, jref_abs)]
+        if rng.random() < 0.15:  # exact duplicates of a structured spec, adjacent or far apart
+            lst = groups if (groups and (not jobs or rng.random() < 0.5)) else jobs
+            lst[rng.randrange(len(lst))] = copy.deepcopy(lst[rng.randrange(len(lst))])
+            ctx.count('fields_cases_with_duplicated_spec')
+            disordered = None  # the bookkeeping columns no longer describe the list exactly: not counted below
+        else:
+            disordered = []
+            for side, cols in (('group', gcols), ('job', jcols)):
+                for f, col in cols.items():
+                    present = [v for v in col if v is not None]
+                    if any(x > y for x, y in zip(present, present[1:])):
+                        disordered.append(f'{side}.{f}')
+            for name in disordered:
+                ctx.seen('fields_disordered', name)
+            ctx.count('fields_disordered_field_lists', len(disordered))
+            if any(name.startswith('group.') for name in disordered):
+                ctx.count('fields_cases_group_field_disordered')
+            if any(name.startswith('job.') for name in disordered):
+                ctx.count('fields_cases_job_field_disordered')
+        sizes = [len(dumps(s)) for s in groups] + [len(dumps(s)) for s in jobs]
+        maxb, maxn = choose_limits(rng, sizes, G)
+        ctx.count('fields_cases')
+        cls = None if disordered is None else (any(d[0] == 'g' for d in disordered), any(d[0] == 'j' for d in disordered))
+        bunches = judge(groups, jobs, maxb, maxn, 'fields', extra_key=('fields', cls))
+        if bunches is not None and disordered and len(bunches) >= 2:
+            ctx.count('fields_disordered_split_over_bunches')
+
+
 # ---- validation record ---------------------------------------------------------------------------------
 # Unchanged tree: quick and thorough, seeds 0..4: all HELD (exit 0).
 # Breaks applied one at a time to a scratch worktree (hailtop/batch_client/aioclient.py), quick tier, seed 0:
@@ -297,3 +685,14 @@ def run(ctx):
 #             byte-limit/equal-to-limit, byte-limit/exceeded (multi-byte padding in the generator is what exposes it)
 #   own 6     per-spec assertion disabled (`assert True`)                          caught  empty-bunch (an oversized first
 #             spec closes an empty bunch); an oversized spec that ends up alone in a bunch is deliberately not judged
+#
+# Order clause on lists with non-monotone fields (phases 'tree' and 'fields', added after seeded/C19-agent4 was missed:
+# the job-group specs of phases 'sized' and 'api' are flat, so a sort by parent id was the identity on every list).
+# Unchanged tree: quick seeds 0..4, thorough seeds 0..2: HELD.  Breaks, scratch worktree, quick tier, seed 0:
+#   seeded C19-agent4  job-group specs sorted by in_update_parent_id (default 0) in _create_bunches
+#                      caught  concat/reordered (phases tree + fields), creation-order/job-groups (tree)
+#   own 7     job specs sorted by their job-group reference in _create_bunches    caught  concat/reordered, creation-order/jobs
+#   own 8     job-group specs sorted by absolute_parent_id (update form only)     caught  concat/reordered, creation-order/job-groups
+#   own 9     Batch._create_job_group keeps _job_group_specs sorted by parent id (other code site: the client's own
+#             list is already permuted, so the concat oracle agrees with it)      caught  creation-order/job-groups only
+#   own 10    job-group specs de-duplicated by job_group_id                        caught  concat/lost-spec (+ reordered)
